@@ -74,6 +74,11 @@ CHECKS = {
     note="Trusted: TLC, Denote/Programs, drv_program.cpp. All operands are dynamic arrays (fixed/bounded result storage is C11's); no hook is needed because operand data are injective and caller-supplied outputs are pre-filled with a sentinel.",
     technique="TLA+ program machine; TLC exhaustive enumeration (quick) / simulation (thorough) of programs; generated behaviours replayed on the real views and evaluators; trace validation by TLC",
     design="5/C10"),
+ "C13": dict(
+    text="Kernel.tla models a 1-d launch: every thread computes gid = block*blocksize + lane and writes out[gid] iff gid < size, in any order, possibly more than once; TLC explores every interleaving of small geometries (guarded write, threads beyond the size write nothing, complete when all ran, launch arithmetic of the host code covers every size) and simulates complete schedules; the driver extracts function composition and leaf operands from TLC-generated view programs, rebuilds operands from raw (pointer, shape, dim) triples in the CUDA/HIP and the SYCL/OpenCL way, and executes the transcribed per-thread kernel body once per scheduled thread; TraceKernel.tla validates every thread execution (nothing outside the output, nothing for gid >= size) and the final buffer against the program's denotation.",
+    note="Trusted: TLC, the 8-line transcription of the __global__ entry in drv_kernel.cpp (device toolchains are not installed), Denote. 'thread gid writes exactly out[gid]' is tracked as drift only. One program class is a known finding (binary ufunc applied to another view).",
+    technique="TLA+ model of the launch, all interleavings by TLC; TLC-simulated schedules replayed thread by thread on the real kernel body; trace validation by TLC",
+    design="5/C13"),
 }
 
 NOT_APPLICABLE = {}
